@@ -1430,6 +1430,235 @@ def check_pair(run: Run, prog: Program) -> None:
               node=node, file=meter_fn.file)
 
 
+def cover_sites(prog: Program) -> tuple[Any, Flow, str, list[tuple[int, ast.AST, ast.AST]], Any]:
+    """(builder, its flow, requested-set parameter, [(node, key expression, construct)], is_cover_test): the function that
+    builds the primary -> fallbacks map from a requested component set, bound by role (the FormulaGenerator method that
+    consults both the pairing predicate and the selection of a meter's fallback components), read as one unit
+    (private helpers in line), and the sites at which it records an entry of the map it returns."""
+    pair_fn, _pairs, meter_fn, _applied = pairing_sites(prog)
+    cls = prog.cls(FG)
+    stop = {pair_fn.name, meter_fn.name}
+    # candidates: the methods from which the pairing predicate is reached, innermost first; the builder is the first one
+    # that -- read as one unit -- records entries of the map it returns (a private helper that only holds the pairing call
+    # is part of its caller, a caller that only passes the map on records nothing)
+    cands = []
+    for m in cls.methods.values():
+        if m.name in stop:
+            continue
+        reach = {f.name for f in _self_callees(prog, cls, m) if f is not m}
+        if pair_fn.name in reach:
+            cands.append((len(reach), m.name, m))
+    last: AnalysisError | None = None
+    for _n, _name, m in sorted(cands, key=lambda t: t[:2]):
+        try:
+            return _cover_unit(prog, m, pair_fn, meter_fn)
+        except AnalysisError as exc:
+            last = exc
+    raise AnalysisError(f"{cls.qual}: no method builds the primary -> fallbacks map from a requested set "
+                        f"(candidates: {sorted(t[1] for t in cands)}; {last})")
+
+
+def _cover_unit(prog: Program, raw: Any, pair_fn: Any, meter_fn: Any) -> tuple[Any, Flow, str, list[tuple[int, ast.AST, ast.AST]], Any]:
+    stop = {pair_fn.name, meter_fn.name}
+    fn = inline_all(prog, raw, stop=stop)
+    fl = Flow(prog, fn)
+    cfg = fl.cfg
+    params = [p_ for p_ in fn.params if p_ != "self"]
+
+    def is_param(e: ast.AST | None, nid: int | None, name: str) -> bool:
+        if e is None:
+            return False
+        while isinstance(e, ast.Call) and u(e.func) in ("set", "frozenset", "list", "tuple", "sorted", "iter") and len(e.args) == 1:
+            e = e.args[0]
+        o = fl.origin(e, nid)
+        return bool(o) and all(q.kind == "param" and q.name == name and q.flow is fl for q in o)
+
+    # the requested set: the parameter whose elements are handed to the pairing predicate
+    req = None
+    for nid, c in fl.calls(lambda c: method_call(c, "self", pair_fn.name)):
+        for a in list(c.args) + [k.value for k in c.keywords]:
+            for q in fl.origin(a, nid):
+                if q.kind == "iter" and q.node is not None:
+                    for p_ in params:
+                        if is_param(q.node, q.nid, p_):
+                            req = req or p_
+    if req is None:
+        if len(params) != 1:
+            raise AnalysisError(f"{raw.qual}: cannot tell which parameter is the requested component set")
+        req = params[0]
+
+    def requested(e: ast.AST, nid: int) -> bool:
+        """`e` is an element of the requested set (the variable of a walk over it)."""
+        o = fl.origin(e, nid)
+        return bool(o) and all(q.kind == "iter" and q.idx is None and q.node is not None and is_param(q.node, q.nid, req) for q in o)
+
+    # the map: what the function returns
+    ret_orgs = [fl.origin(cfg.nodes[r].ast.value, r) for r in fl.returns() if cfg.nodes[r].ast.value is not None]  # type: ignore[union-attr]
+    if not ret_orgs:
+        raise AnalysisError(f"{raw.qual}: returns nothing")
+
+    def is_map(e: ast.AST, nid: int) -> bool:
+        o = fl.origin(e, nid)
+        return bool(o) and any(names_eq(o, ro) for ro in ret_orgs)
+
+    sites: list[tuple[int, ast.AST, ast.AST]] = []
+    for n in cfg.nodes:
+        if n.ast is None or n.id not in fl.live:
+            continue
+        for part in own_parts(n):
+            if isinstance(part, (ast.FunctionDef, ast.AsyncFunctionDef)):
+                continue
+            for x in ast.walk(part):
+                if isinstance(x, ast.Subscript) and is_map(x.value, n.id):
+                    par = fl._parent.get(id(x))
+                    stored = isinstance(x.ctx, (ast.Store, ast.Del)) or (
+                        isinstance(par, ast.Attribute) and par.attr in ("add", "update", "append", "extend", "union", "__ior__"))
+                    if stored:
+                        sites.append((n.id, x.slice, n.ast))
+                elif isinstance(x, ast.Call) and isinstance(x.func, ast.Attribute) and x.func.attr == "setdefault" and x.args \
+                        and is_map(x.func.value, n.id):
+                    sites.append((n.id, x.args[0], n.ast))
+                elif isinstance(x, ast.Call) and isinstance(x.func, ast.Attribute) and x.func.attr == "update" and is_map(x.func.value, n.id):
+                    sites.append((n.id, x, n.ast))
+    if not sites:
+        raise AnalysisError(f"{raw.qual}: no site records an entry of the returned map")
+
+    def measured_by(f: Flow, e: ast.AST, nid: int, key: ast.AST, knid: int) -> bool:
+        """`e` (in flow f: the builder or a private helper it calls) is the set of everything the component `key` measures:
+        graph.successors(<key>.component_id), or what the selection of a meter's fallback components returns for it."""
+        korg = fl.origin(key, knid)
+        org = f.origin(e, nid)
+        for q in org:
+            c = q.call()
+            if c is None or not isinstance(c.func, ast.Attribute) or q.nid is None:
+                return False
+            args = list(c.args) + [k.value for k in c.keywords]
+            if c.func.attr == "successors" and len(args) == 1:
+                ids = [z for z in q.flow.origin(args[0], q.nid)]
+                if not ids or not all(z.kind == "expr" and isinstance(z.node, ast.Attribute) and z.node.attr == "component_id"
+                                      and names_eq(z.flow.origin(z.node.value, z.nid), korg) for z in ids):
+                    return False
+            elif c.func.attr == meter_fn.name and u(c.func.value) == "self" and len(args) == 1:
+                if not names_eq(q.flow.origin(args[0], q.nid), korg):
+                    return False
+            else:
+                return False
+        return bool(org)
+
+    def is_req(f: Flow, e: ast.AST | None, nid: int | None) -> bool:
+        if e is None:
+            return False
+        while isinstance(e, ast.Call) and u(e.func) in ("set", "frozenset", "list", "tuple", "sorted", "iter") and len(e.args) == 1:
+            e = e.args[0]
+        o = f.origin(e, nid)
+        return bool(o) and all(q.kind == "param" and q.name == req and q.flow is fl for q in o)
+
+    def cover_test(key: ast.AST, knid: int, f: Flow | None = None, depth: int = 0) -> Any:
+        """Atom (for flow f): the verdict of a condition under "NOT everything `key` measures is requested"."""
+        f = f or fl
+
+        def meas(e: ast.AST, nid: int) -> bool:
+            return measured_by(f, e, nid, key, knid)  # type: ignore[arg-type]
+
+        def atom(e: ast.AST, nid: int) -> bool | None:
+            if isinstance(e, ast.Call) and u(e.func) == "bool" and len(e.args) == 1:
+                return tri(e.args[0], lambda x: lifted(f, atom)(x, nid))  # type: ignore[arg-type]
+            if isinstance(e, ast.Call) and isinstance(e.func, ast.Attribute) and len(e.args) == 1 and not e.keywords:
+                if e.func.attr == "issubset" and meas(e.func.value, nid) and is_req(f, e.args[0], nid):
+                    return False
+                if e.func.attr == "issuperset" and is_req(f, e.func.value, nid) and meas(e.args[0], nid):
+                    return False
+                if e.func.attr == "difference" and meas(e.func.value, nid) and is_req(f, e.args[0], nid):
+                    return True     # non-empty
+            if isinstance(e, ast.Compare) and len(e.ops) == 1:
+                a, b, op = e.left, e.comparators[0], e.ops[0]
+                if isinstance(op, ast.LtE) and meas(a, nid) and is_req(f, b, nid):
+                    return False
+                if isinstance(op, ast.GtE) and is_req(f, a, nid) and meas(b, nid):
+                    return False
+                for x, y, flip in ((a, b, False), (b, a, True)):
+                    diff = x.args[0] if isinstance(x, ast.Call) and u(x.func) == "len" and len(x.args) == 1 else None
+                    if diff is not None and atom(diff, nid) is True and isinstance(y, ast.Constant) and isinstance(y.value, int):
+                        vals = {cmp_eval_(op, y.value, k) if flip else cmp_eval_(op, k, y.value) for k in (1, 2, 5)}
+                        return vals.pop() if len(vals) == 1 else None
+            if isinstance(e, ast.BinOp) and isinstance(e.op, ast.Sub) and meas(e.left, nid) and is_req(f, e.right, nid):
+                return True         # `successors - requested` is non-empty
+            if isinstance(e, ast.Call) and u(e.func) in ("all", "any") and len(e.args) == 1 and isinstance(e.args[0], (ast.GeneratorExp, ast.ListComp)) \
+                    and len(e.args[0].generators) == 1 and not e.args[0].generators[0].ifs:
+                g = e.args[0].generators[0]
+                elt = e.args[0].elt
+                neg = False
+                while isinstance(elt, ast.UnaryOp) and isinstance(elt.op, ast.Not):
+                    neg, elt = not neg, elt.operand
+                if isinstance(g.target, ast.Name) and meas(g.iter, nid) and isinstance(elt, ast.Compare) and len(elt.ops) == 1 \
+                        and isinstance(elt.left, ast.Name) and elt.left.id == g.target.id and is_req(f, elt.comparators[0], nid):
+                    inside = isinstance(elt.ops[0], ast.In) != neg if isinstance(elt.ops[0], (ast.In, ast.NotIn)) else None
+                    if inside is True and u(e.func) == "all":
+                        return False
+                    if inside is False and u(e.func) == "any":
+                        return True
+            if isinstance(e, ast.Name):
+                # a set used as a condition: `if missing:` with missing = successors - requested
+                o = f.origin(e, nid, through_helpers=False)
+                if o and all(q.kind == "expr" and q.nid is not None and q.flow is f and (
+                        isinstance(q.node, ast.BinOp) or (isinstance(q.node, ast.Call) and isinstance(q.node.func, ast.Attribute)
+                                                          and q.node.func.attr == "difference")) and atom(q.node, q.nid) is True for q in o):
+                    return True
+            if isinstance(e, ast.Call) and depth < 3:
+                # a private predicate helper (`self._all_requested(meter, wanted)`): decided when all of its returns agree
+                ch = f.child(e, nid)
+                if ch is not None and not ch.fn.is_async:
+                    inner = lifted(ch, cover_test(key, knid, ch, depth + 1))
+                    verdicts = set()
+                    for r in ch.returns():
+                        v = ch.cfg.nodes[r].ast.value  # type: ignore[union-attr]
+                        verdicts.add(None if v is None else tri(v, lambda x, r=r: inner(x, r)))
+                    if len(verdicts) == 1:
+                        return verdicts.pop()
+            return None
+        return atom
+
+    return raw, fl, req, [(nid, k, c) for nid, k, c in sites if not (isinstance(k, ast.Call)) and not requested(k, nid)] + [
+        (nid, k, c) for nid, k, c in sites if isinstance(k, ast.Call)], cover_test
+
+
+def cmp_eval_(op: ast.cmpop, a: Any, b: Any) -> bool | None:
+    from ._c06_util import cmp_eval
+    return cmp_eval(op, a, b)
+
+
+def check_cover(run: Run, prog: Program) -> None:
+    """C19.COVER ("the formula output equals the true value whenever at least one of the two sources is valid"): the primary
+    and the fallback of one term must measure the same thing.  The function that builds the primary -> fallbacks map from
+    the REQUESTED component set records two kinds of primaries: (a) a requested component itself (a requested meter gets
+    all its successors, or nothing, as fallback: C19.PAIR) -- fine; (b) a component that was not asked for, reached as the
+    predecessor of a requested device (its dedicated meter).  Such a primary measures ALL its successors, so it may be
+    recorded only on paths that established that all of them are requested: in the scenario "not everything the primary
+    measures is in the requested set" no recording site with that key is reachable.  (Spellings decided: `.issubset(req)`,
+    `<=`, `req >= ..` / `.issuperset`, `all(s in req for s in ..)`, `not (.. - req)`, `len(.. - req) == 0`, the same through
+    locals and private helpers.)"""
+    raw, fl, req, sites, cover_test = cover_sites(prog)
+    run.analysed(raw.qual)
+    cfg = fl.cfg
+    if not sites:
+        run.ok("C19.COVER", f"{raw.qual}: every primary recorded is an element of the requested set `{req}`")
+        return
+    for nid, key, construct in sites:
+        edge = pruned(cfg, lifted(fl, cover_test(key, nid)), normal_only=False)
+        wit = cfg.path(cfg.entry, [nid], edge_ok=edge)
+        run.check(wit is None, "C19.COVER", raw.qual, construct,
+                  f"`{u(construct)[:90]}` records `{u(key)[:40]}` -- a component that is NOT one of the requested `{req}` (it is reached "
+                  "as the predecessor of a requested device) -- as the primary measuring point of a term, on a path that never "
+                  f"established that everything it measures is requested (its successor set is not tested against `{req}`).  A meter "
+                  "measures ALL its successors: for a pool over inverter A behind a meter M with inverters A and B the term reads "
+                  "`#M` = A + B while M is valid and A (the fallback) while M is missing -- primary and fallback of one term "
+                  "measure different things, and the output is wrong exactly while the primary is healthy.  The primary may stand "
+                  f"in only when `graph.successors(<primary>).issubset({req})` (or `<=`, `all(s in {req} ..)`, `not (successors - {req})`); "
+                  "otherwise each requested device is its own primary",
+                  node=construct, file=raw.file, path=cfg.describe_path(wit),
+                  instance=f"{raw.qual}: `{u(construct)[:60]}` only when the primary's successors are all requested")
+
+
 def round_exceptions(prog: Program) -> list[tuple[str, str, int]]:
     """(exception class, where, line) of what a round of the evaluator can raise by its own statements: `raise X(..)` and
     `assert` in FormulaEvaluator's methods and in MetricFetcher's fetch path (for the message of C19.LOOP)."""
@@ -1713,6 +1942,7 @@ def run_rules(run: Run, prog: Program) -> None:
     check_buf(run, prog)
     check_metric(run, prog)
     check_pair(run, prog)
+    check_cover(run, prog)
     check_loop(run, prog)
     check_resync(run, prog)
 
